@@ -8,6 +8,7 @@
 // bit-identity).  Private state after each prefix is hashed (-fno-access-control) to count canonical states: with the property true
 // there are k+1 of them per (configuration, letter); the count is evidence only, never an alarm.
 #include "vf.hpp"
+#include <set>
 #include "ma-filter.h"
 #include <memory>
 #include <numeric>
@@ -542,6 +543,58 @@ int main(int argc, char** argv) {
                 if (!e.empty())
                     ctx.fail(c.name.substr(0, c.name.find('(')).c_str(), "valid frames interleaved with rejected frames: " + e,
                              "a rejected call leaves the object unchanged: same output as the valid frames alone", P().kv("mode", "reject"));
+            }
+        }
+        // ---------------- mode long: a stream of > 70 000 samples (16-bit counters / offsets wrap at 65 536) under five framings
+        {
+            static std::set<std::string> seen_kind;
+            const std::string kind = c.name.substr(0, c.name.find('('));
+            const bool first_of_kind = seen_kind.insert(kind).second;
+            if ((T || first_of_kind) && ctx.take("frame.long", P().kv("config", c.name))) {
+                const int GL = (int)((70001 + c.granule - 1) / c.granule) + 3;
+                auto stream = make_stream(c, GL, 0);
+                RunOut ref = run_frames(c, stream, {GL}, nullptr);
+                if (!ref.err.empty()) {
+                    ctx.fail("one-call", "the one-call run threw: " + ref.err, "processes the whole stream");
+                } else {
+                    ctx.nontrivial();
+                    const int g65 = (int)(65535 / c.granule);
+                    std::vector<std::vector<int>> framings;
+                    framings.push_back({g65, 1, GL - g65 - 1});                       // a boundary right before / after sample 65 536
+                    framings.push_back({3, GL - 3});                                    // short frame, then one frame longer than 65 536
+                    {
+                        std::vector<int> f;                                             // uniform frames of about 1000 samples
+                        const int u = std::max(1, 1000 / c.granule);
+                        for (int done = 0; done < GL; done += u) f.push_back(std::min(u, GL - done));
+                        framings.push_back(f);
+                    }
+                    {
+                        std::vector<int> f;                                             // alternating 1 / 64 granules
+                        for (int done = 0, k = 0; done < GL; ++k) {
+                            int u = std::min((k % 2) ? 64 : 1, GL - done);
+                            f.push_back(u);
+                            done += u;
+                        }
+                        framings.push_back(f);
+                    }
+                    framings.push_back({GL - 1, 1});
+                    double worst = 0;
+                    bool bitid = true;
+                    int reported = 0;
+                    for (size_t fi = 0; fi < framings.size(); ++fi) {
+                        RunOut r = run_frames(c, stream, framings[fi], nullptr);
+                        ++ctx.traces;
+                        ctx.transitions += framings[fi].size();
+                        std::string e = r.err.empty() ? cmp(ref.out, r.out, worst, bitid) : ("threw: " + r.err);
+                        if (!e.empty() && reported < 2) {
+                            ++reported;
+                            ctx.fail(kind.c_str(), fmt("stream of %lld samples, framing #%zu (%zu frames, first %d granules): %s", (long long)GL * c.granule, fi,
+                                                       framings[fi].size(), framings[fi][0], e.c_str()),
+                                     "same concatenated output as one call on the whole stream", P().kv("framing", (int)fi).kv("mode", "long"));
+                        }
+                    }
+                    ctx.worst("long: |delta|/tol", worst);
+                }
             }
         }
         // ---------------- mode iso: instance isolation
